@@ -160,7 +160,11 @@ Definition date_add_opt (n secs : Z) : option Z :=
   let r := n + Z.quot secs 86400 in
   if (MIN_DAY <=? r) && (r <=? MAX_DAY) then Some r else None.
 
-Definition date_calc (days : Z) (dur : Z) (op : optype) : res (option Z) :=
+Definition date_calc (days : Z) (dur0 : Z) (op0 : optype) : res (option Z) :=
+  (* a negative duration swaps the operation and is applied with its absolute value *)
+  let '(dur, op) := if dur0 <? 0
+                    then (- dur0, match op0 with OAdd => OSub | OSub => OAdd | o => o end)
+                    else (dur0, op0) in
   let years_n := Z.abs dur / YEAR in
   match op with
   | OAdd =>
